@@ -18,7 +18,8 @@ META = {
         "alternative x world, including cattrs' own native disambiguators, whose keys are field names by "
         "construction); (c) no handler iterates a mapping, takes its len() or compares it as a whole (such "
         "code would see the extra key). With axiom A3 (generated structure functions read only declared keys "
-        "and ignore the rest) these make structuring independent of undeclared properties."),
+        "and ignore the rest) these make structuring independent of undeclared properties."
+        "Class-level hooks are decided when they only use keyed access; base-protocol positions must be typed (an LSPAny position is not structured, so unknown properties survive in it); comparisons on a whole mapping count as whole-value tests."),
     "trusted_base": ["A3: make_dict_structure_fn ignores unknown keys unless forbid_extra_keys is set"],
     "assumptions": ["'fresh' property name = not a declared wire name of any alternative at that position"],
     "not_decided": ["a user-supplied converter that was itself created with forbid_extra_keys=True"],
